@@ -60,6 +60,38 @@ def run(chk, facts, tier):
                      node=bad[0][1] if bad else None, key='acknowledge(read_buffer)')
 
     # nRF52 radio ISR: which buffer function sees which receive outcome
+    chk.rule('pdu-status', 'nRF52 received_pdu(): mic_error = receive_encrypted_ && receive_size() != 0 && MICSTATUS == CheckFailed (every encrypted PDU with payload carries a MIC, whatever its length); '
+             'valid_pdu requires !mic_error, !crc_error, !not_decrypt and a valid anchor; the tuple handed to the ISR is { valid_anchor, valid_pdu, !crc_error }', floor=1)
+
+    def conj(n):
+        n = strip_casts(n)
+        if n.k == 'BinaryOperator' and n.o == '&&':
+            return conj(n.c[0]) + conj(n.c[1])
+        return [n]
+    for fn in [f for f in facts.functions if f.name == 'received_pdu' and 'with_crypto' in (f.cls or '') and f.kind in ('plain', 'pattern')]:
+        probs = []
+        mi = local_init(fn, 'mic_error', optional=True)
+        vp = local_init(fn, 'valid_pdu', optional=True)
+        if mi is None or vp is None:
+            chk.broke('received_pdu: locals mic_error / valid_pdu not found (idiom not recognised)')
+            continue
+        cs = conj(mi)
+        enc = [c for c in cs if is_name(c, 'receive_encrypted_')]
+        size = [c for c in cs if as_binop(c) is not None and any(x.d.get('call') and x.cn == 'receive_size' or (x.k in REF_KINDS and x.n == 'receive_size') for x in c.walk())]
+        mic = [c for c in cs if as_binop(c) is not None and as_binop(c)[0] == '==' and mentions(c, 'MICSTATUS')]
+        if not (len(cs) == 3 and len(enc) == 1 and len(mic) == 1 and len(size) == 1):
+            probs.append('mic_error is not the conjunction of receive_encrypted_, a payload test and the CCM MIC status (%d conjuncts)' % len(cs))
+        elif not (as_binop(size[0])[0] == '!=' and cval(as_binop(size[0])[2]) == 0):
+            probs.append('the MIC status is honoured only for PDUs with (%s): a shorter encrypted PDU whose MIC check failed is reported as valid, delivered and acknowledged' % size[0].text()[:50])
+        vc = conj(vp)
+        negs = {strip_casts(c.c[0]).n for c in vc if c.k == 'UnaryOperator' and c.o == '!'}
+        if not ({'mic_error', 'crc_error', 'not_decrypt'} <= negs and any(is_name(c, 'valid_anchor') for c in vc)):
+            probs.append('valid_pdu does not require valid_anchor && !crc_error && !not_decrypt && !mic_error (negated: %s)' % sorted(negs))
+        r = [x for x in fn.returns() if not any(a.k == 'LambdaExpr' for a in x.ancestors())]
+        il = next((x for x in (ret_value(r[0]).walk() if len(r) == 1 and ret_value(r[0]) is not None else []) if (x.k == 'InitListExpr' or x.d.get('ctor') or x.k == 'CXXConstructExpr') and len(x.c) == 3), None)
+        if il is None or not (is_name(il.c[0], 'valid_anchor') and is_name(il.c[1], 'valid_pdu') and strip_casts(il.c[2]).k == 'UnaryOperator' and is_name(strip_casts(il.c[2]).c[0], 'crc_error')):
+            probs.append('the result is not { valid_anchor, valid_pdu, !crc_error }')
+        chk.instance('pdu-status', fn, 'received_pdu: mic_error / valid_pdu / result tuple', not probs, '; '.join(probs), key='received_pdu')
     chk.rule('isr-dispatch', 'nRF52 radio ISR: received() only for valid CRC and valid MIC and a real receive buffer; acknowledge(buffer) only for valid CRC with invalid MIC; otherwise next_transmit() (nothing acknowledged)', floor=2)
     for fn in facts.functions:
         if fn.name != 'radio_interrupt_handler' or not fn._cfg:
